@@ -124,6 +124,8 @@ class Interp(StmtMixin, ExtMixin, OpsMixin, InterpCore):
             return v.seq
         if isinstance(v, SeqV) and v.kind in ("rows", "rowstrings"):
             return v
+        if isinstance(v, InstV) and v.label is None and v.ci.lookup("__iter__") is not None and not self.is_listlike(v):
+            return self.iterate_object(v, node)
         if self.is_listlike(v) and v.ci.lookup("__iter__") is None:
             return self.hidden_list(v)
         if isinstance(v, PyObjV) and hasattr(v.obj, "iter_items"):
@@ -410,6 +412,52 @@ class Interp(StmtMixin, ExtMixin, OpsMixin, InterpCore):
         if any(isinstance(a, SymIterV) for a in args):
             self.err(node, "zip over a symbolic iterator")
         return ExtMixin.x_zip(self, args, kwargs, node, env)
+
+    def iterate_object(self, v, node):
+        """iteration protocol on an object of the package: iter(v) is a generator (its items), or an object whose
+        __next__ draws exactly one item from one inner iterator per call and returns a function of it (a lazy map)"""
+        it = self.call(self.getattr(v, "__iter__", node), [], {}, node)
+        if isinstance(it, (GenV, ListV, SeqV)):
+            return self.as_iterable(it, node)
+        if not (isinstance(it, InstV) and it.ci.lookup("__next__") is not None):
+            self.err(node, "__iter__ of %s returns %r" % (v.ci.name, it))
+        draws = []
+        saved = getattr(self, "_next_probe", None)
+        self._next_probe = draws
+        try:
+            first = self.call(self.getattr(it, "__next__", node), [], {}, node)
+            n1 = len(draws)
+            second = self.call(self.getattr(it, "__next__", node), [], {}, node)
+        finally:
+            self._next_probe = saved
+        if n1 != 1 or len(draws) != 2 or draws[0][0] is not draws[1][0]:
+            self.err(node, "%s.__next__ is not a one-item-per-call map over one inner iterator" % it.ci.name)
+        inner, var1 = draws[0]
+        var2 = draws[1][1]
+        try:
+            same = self.subst(second, {var2: ep.sym(var1)}).key() == first.key()
+        except (AnalysisError, NotImplementedError):
+            same = False
+        if not same:
+            self.err(node, "%s.__next__ depends on the call history" % it.ci.name)
+        seq = inner.seq
+        bvar, lo, hi, belem, seqv = self.loop_binder(seq, node)
+        # next(inner) already stood for the inner sequence's element at index var1: re-index by the sequence's own variable
+        elem = self.subst(first, {var1: ep.sym(bvar)})
+        if seqv is not None:
+            return SeqV("seqmap", var=bvar, seq=seqv, elem=elem)
+        return SeqV("family", var=bvar, lo=lo, hi=hi, elem=elem)
+
+    def x_next(self, args, kwargs, node, env):
+        it = args[0]
+        probe = getattr(self, "_next_probe", None)
+        if isinstance(it, SymIterV) and probe is not None and len(args) == 1:
+            bvar = self.fresh_sym("nx")
+            probe.append((it, bvar))
+            seq = it.seq
+            var, lo, hi, elem, seqv = self.loop_binder(seq, node)
+            return self.subst(elem, {var: ep.sym(bvar)})
+        return ExtMixin.x_next(self, args, kwargs, node, env)
 
     def match_slice_rows(self, st, env):
         it = st.iter
